@@ -43,6 +43,10 @@ def _alarm(signum, frame):
     raise CaseTimeout()
 
 
+#: regular expression of module names whose warnings are raised as exceptions inside call() (None: warnings are only recorded)
+WARNINGS_AS_ERRORS_IN = None
+
+
 def call(f, *a, _timeout: float = 0, **kw) -> Outcome:
     """Run f and record returned / raised (BaseException included: pyo3 PanicException)."""
     if _timeout:
@@ -51,6 +55,8 @@ def call(f, *a, _timeout: float = 0, **kw) -> Outcome:
     try:
         with warnings.catch_warnings(record=True) as w:
             warnings.simplefilter("always")
+            if WARNINGS_AS_ERRORS_IN:
+                warnings.filterwarnings("error", module=WARNINGS_AS_ERRORS_IN)   # as python -W error / pytest's filterwarnings = error would
             try:
                 v = f(*a, **kw)
                 return Outcome(True, v, None, list(w))
